@@ -1,5 +1,6 @@
 import Spine.UseCaseConc
 import Spine.UseCaseHeap
+import Spine.UseCaseLock
 open Spine.UC
 /-! Line protocol for the use-case registry model (C20). One op per line, one answer per line.
 
@@ -7,7 +8,10 @@ open Spine.UC
     events of the code as written (DataCopy … SetData); `read` is the reply to a peer's read.
     Two members run in lockstep: the value-copy model the theorems are stated on (`Spine.UC.CSt`) and the
     aliasing-exact heap member (`Spine.UCH.St`). An answer is `X` when both agree and `H ## V` (heap, value) when
-    they differ — which may only happen inside overlapping read-modify-write cycles. -/
+    they differ — which may only happen inside overlapping read-modify-write cycles.
+    `cfg locked 1` selects the member with the lock (`Spine.UC.LSt`, the current tree): then `copy k` stands for
+    `acquire k; copy k` (the goroutine is parked at the yield point inside the locked region), `store k <op>` for
+    `store k <op>; release k`, a sequential op for a whole cycle, and every answer comes from that member. -/
 def showSup (s : Support) : String := s!"{s.name}/{s.version}/{if s.avail then 1 else 0}/{s.scen}/{s.sub}"
 def showInfo (i : Info) : String := s!"{i.ent}:{i.actor}:" ++ ",".intercalate (i.sup.map showSup)
 def showReg (r : Reg) : String := if r.isEmpty then "." else " | ".intercalate (r.map showInfo)
@@ -30,14 +34,19 @@ def parseOp : List String → Option Op
 structure Both where
   v : CSt := {}
   h : Spine.UCH.St := {}
+  l : LSt := {}
+  locked : Bool := false
 
 def both (hs vs : String) : String := if hs == vs then hs else hs ++ " ## " ++ vs
-def onReg (b : Both) (f : Reg → String) : String := both (f (Spine.UCH.reg b.h)) (f b.v.reg)
+def onReg (b : Both) (f : Reg → String) : String :=
+  if b.locked then f b.l.reg else both (f (Spine.UCH.reg b.h)) (f b.v.reg)
+def lrunOn (s : LSt) (evs : List LEv) : LSt := evs.foldl lstep s
 
 def answer (b : Both) (ws : List String) : Both × String :=
   match ws with
-  | ["reset"] => ({}, ".")
-  | ["read"] => (b, onReg b fun r => showReg (readReply r))
+  | ["reset"] => ({ locked := b.locked }, ".")
+  | ["cfg", "locked", x] => ({ b with locked := x == "1" }, "ok")
+  | ["read"] => (b, onReg b fun r => match peerReads r with | some r' => showReg r' | none => "undecodable")
   | ["has", e, a, n] => match nums [a, n] with
     | some [a, n] => (b, onReg b fun r => if has r (parseEnt e) a n then "true" else "false")
     | _ => (b, "bad-op")
@@ -45,16 +54,19 @@ def answer (b : Both) (ws : List String) : Both × String :=
     | some [a, n] => (b, onReg b fun r => match lookup r (parseEnt e) a n with | some x => showSup x | none => "none")
     | _ => (b, "bad-op")
   | ["copy", k] => match k.toNat? with
-    | some k => ({ v := cstep b.v (.copy k), h := Spine.UCH.step b.h (.copy k) }, "ok")
+    | some k => ({ b with v := cstep b.v (.copy k), h := Spine.UCH.step b.h (.copy k),
+                          l := lrunOn b.l [.acquire k, .copy k] }, "ok")
     | none => (b, "bad-op")
   | "store" :: k :: rest => match k.toNat?, parseOp rest with
     | some k, some o =>
-      let b' : Both := { v := cstep b.v (.store k o), h := Spine.UCH.step b.h (.store k o) }
+      let b' : Both := { b with v := cstep b.v (.store k o), h := Spine.UCH.step b.h (.store k o),
+                                l := lrunOn b.l [.store k o, .release k] }
       (b', onReg b' showReg)
     | _, _ => (b, "bad-op")
   | _ => match parseOp ws with
     | some o =>
-      let b' : Both := { v := cstep b.v (.atomic o), h := Spine.UCH.step b.h (.atomic o) }
+      let b' : Both := { b with v := cstep b.v (.atomic o), h := Spine.UCH.step b.h (.atomic o),
+                                l := lrunOn b.l [.acquire 0, .copy 0, .store 0 o, .release 0] }
       (b', onReg b' showReg)
     | none => (b, "bad-op")
 
